@@ -134,4 +134,264 @@ theorem joinWith_ne_nil (sep x : Str) (r : List Str) (hx : x ≠ []) : joinWith 
   | nil => simpa [joinWith] using hx
   | cons y r' => simp [joinWith, hx]
 
+/-! ### attribute items -/
+
+theorem keyWF_spec {k : Str} (h : keyWF k = true) : k ≠ [] ∧ ∀ c ∈ k, isLetter c = true := by
+  unfold keyWF at h
+  simp only [Bool.and_eq_true, Bool.not_eq_true', List.isEmpty_eq_false_iff, List.all_eq_true] at h
+  exact ⟨h.1, h.2⟩
+
+theorem valWF_spec {v : Str} (h : valWF v = true) :
+    v ≠ [] ∧ trimmed v = true ∧ ∀ c ∈ v, c ≠ ',' ∧ c ≠ '=' ∧ c ≠ '\n' := by
+  unfold valWF at h
+  simp only [Bool.and_eq_true, Bool.not_eq_true', List.isEmpty_eq_false_iff, List.all_eq_true,
+    bne_iff_ne, ne_eq] at h
+  exact ⟨h.1.1, h.1.2, fun c hc => ⟨(h.2 c hc).1.1, (h.2 c hc).1.2, (h.2 c hc).2⟩⟩
+
+theorem letters_take_drop (k rest : Str) (hk : ∀ c ∈ k, isLetter c = true)
+    (hr : ∀ x, rest.head? = some x → isLetter x = false) :
+    (k ++ rest).takeWhile isLetter = k ∧ (k ++ rest).dropWhile isLetter = rest :=
+  takeWhile_append_stop isLetter k rest hk hr
+
+theorem validItem_flag (k : Str) (hk : keyWF k = true) : validItem k = true := by
+  obtain ⟨hne, hl⟩ := keyWF_spec hk
+  have := letters_take_drop k [] hl (by simp)
+  simp only [List.append_nil] at this
+  unfold validItem
+  rw [this.1, this.2]
+  simp [hne]
+
+theorem validItem_kv (k v : Str) (hk : keyWF k = true) (hv : valWF v = true) :
+    validItem (k ++ '=' :: v) = true := by
+  obtain ⟨hne, hl⟩ := keyWF_spec hk
+  obtain ⟨hvne, _, hvc⟩ := valWF_spec hv
+  have := letters_take_drop k ('=' :: v) hl (by intro x hx; simp at hx; subst hx; decide)
+  unfold validItem
+  rw [this.1, this.2]
+  simp only [Bool.and_eq_true, Bool.not_eq_true', List.isEmpty_eq_false_iff, List.all_eq_true, bne_iff_ne]
+  exact ⟨hne, by decide, hvne, fun c hc => (hvc c hc).2.2⟩
+
+theorem letter_ne_eq {c : Char} (h : isLetter c = true) : c ≠ '=' := isLetter_ne h (by decide)
+theorem letter_ne_comma {c : Char} (h : isLetter c = true) : c ≠ ',' := isLetter_ne h (by decide)
+
+theorem splitEq_flag (k : Str) (hk : keyWF k = true) : splitOn '=' k = [k] :=
+  splitOn_none '=' k (fun c hc => letter_ne_eq ((keyWF_spec hk).2 c hc))
+
+theorem splitEq_kv (k v : Str) (hk : keyWF k = true) (hv : valWF v = true) :
+    splitOn '=' (k ++ '=' :: v) = [k, v] := by
+  rw [splitOn_append '=' k v (fun c hc => letter_ne_eq ((keyWF_spec hk).2 c hc)),
+    splitOn_none '=' v (fun c hc => ((valWF_spec hv).2.2 c hc).2.1)]
+
+theorem strip_flag (k : Str) (hk : keyWF k = true) : strip k = k := by
+  obtain ⟨hne, hl⟩ := keyWF_spec hk
+  apply strip_trimmed
+  unfold trimmed
+  cases k with
+  | nil => exact absurd rfl hne
+  | cons a t =>
+    have h1 := isLetter_not_space (hl a List.mem_cons_self)
+    have h2 : ∀ c, (a :: t).getLast? = some c → isPySpace c = false := by
+      intro c hc
+      exact isLetter_not_space (hl c (List.mem_of_getLast? hc))
+    cases hg : (a :: t).getLast? with
+    | none => simp at hg
+    | some c => simp [h1, h2 c hg]
+
+theorem strip_kv (k v : Str) (hk : keyWF k = true) (hv : valWF v = true) :
+    strip (k ++ '=' :: v) = k ++ '=' :: v := by
+  obtain ⟨hne, hl⟩ := keyWF_spec hk
+  obtain ⟨hvne, hvt, _⟩ := valWF_spec hv
+  unfold strip
+  rw [lstrip_of_head]
+  · apply rstrip_append
+    · rw [rstrip_cons, trimmed_rstrip hvt]
+      simp [hvne]
+    · simp
+  · intro c hc
+    cases k with
+    | nil => exact absurd rfl hne
+    | cons a t =>
+      simp at hc; subst hc
+      exact isLetter_not_space (hl a List.mem_cons_self)
+
+/-! ### the dictionary updates -/
+
+theorem hasKey_false {acc : Attrs} {k : Str} (h : hasKey acc k = false) : ∀ x ∈ acc, (x.1 == k) = false := by
+  unfold hasKey at h
+  simpa using h
+
+theorem map_upd_notin (acc : Attrs) (k : Str) (g : Str × List Str → Str × List Str)
+    (h : ∀ x ∈ acc, (x.1 == k) = false) : acc.map (fun kv => if kv.1 == k then g kv else kv) = acc := by
+  induction acc with
+  | nil => rfl
+  | cons a t ih =>
+    simp [h a List.mem_cons_self, ih (fun x hx => h x (List.mem_cons_of_mem _ hx))]
+
+theorem find_notin (acc : Attrs) (k : Str) (h : ∀ x ∈ acc, (x.1 == k) = false) :
+    acc.find? (·.1 == k) = none := by
+  simp only [List.find?_eq_none]
+  intro x hx
+  simp [h x hx]
+
+theorem setAttr_flag_new (acc : Attrs) (k : Str) (h : hasKey acc k = false) :
+    setAttr acc k none = .ok (acc ++ [(k, [])]) := by
+  simp [setAttr, h]
+
+theorem setAttr_val_new (acc : Attrs) (k v : Str) (h : hasKey acc k = false) :
+    setAttr acc k (some v) = .ok (acc ++ [(k, [v])]) := by
+  simp [setAttr, find_notin acc k (hasKey_false h)]
+
+theorem setAttr_val_more (acc : Attrs) (k v : Str) (l : List Str) (h : hasKey acc k = false) (hl : l ≠ []) :
+    setAttr (acc ++ [(k, l)]) k (some v) = .ok (acc ++ [(k, l ++ [v])]) := by
+  have hf : (acc ++ [(k, l)]).find? (·.1 == k) = some (k, l) := by
+    simp [List.find?_append, find_notin acc k (hasKey_false h)]
+  cases l with
+  | nil => exact absurd rfl hl
+  | cons a t =>
+    simp only [setAttr, hf]
+    simp [map_upd_notin acc k _ (hasKey_false h)]
+
+theorem parseItems_values (k : Str) (hk : keyWF k = true) (vs : List Str) (hvs : ∀ v ∈ vs, valWF v = true)
+    (rest : List Str) (acc : Attrs) (hacc : hasKey acc k = false) (l : List Str) (hl : l ≠ []) :
+    parseItems (vs.map (fun x => k ++ '=' :: x) ++ rest) (acc ++ [(k, l)]) =
+      parseItems rest (acc ++ [(k, l ++ vs)]) := by
+  induction vs generalizing l with
+  | nil => simp
+  | cons v vs ih =>
+    have hv := hvs v List.mem_cons_self
+    simp only [List.map_cons, List.cons_append, parseItems, validItem_kv k v hk hv, splitEq_kv k v hk hv,
+      setAttr_val_more acc k v l hacc hl]
+    simp only [Bool.not_true, Bool.false_eq_true, ↓reduceIte, Except.bind]
+    rw [ih (fun x hx => hvs x (List.mem_cons_of_mem _ hx)) (l ++ [v]) (by simp)]
+    simp
+
+theorem hasKey_append_single (acc : Attrs) (k k' : Str) (l : List Str) (h : hasKey acc k' = false)
+    (hne : (k == k') = false) : hasKey (acc ++ [(k, l)]) k' = false := by
+  unfold hasKey at *
+  simp only [List.any_append, h, List.any_cons, hne, List.any_nil, Bool.or_self]
+
+theorem parseItems_format (as : Attrs) (acc : Attrs)
+    (hwf : ∀ kv ∈ as, keyWF kv.1 = true ∧ ∀ v ∈ kv.2, valWF v = true) (hnd : nodupKeys as = true)
+    (hdis : ∀ kv ∈ as, hasKey acc kv.1 = false) :
+    parseItems (formatItems as) acc = .ok (acc ++ as) := by
+  induction as generalizing acc with
+  | nil => simp [formatItems, parseItems]
+  | cons kv r ih =>
+    obtain ⟨k, vs⟩ := kv
+    have hk := (hwf (k, vs) List.mem_cons_self).1
+    have hvs := (hwf (k, vs) List.mem_cons_self).2
+    have hacc := hdis (k, vs) List.mem_cons_self
+    simp only [nodupKeys, Bool.and_eq_true, Bool.not_eq_true'] at hnd
+    have hr : ∀ kv' ∈ r, hasKey (acc ++ [(k, vs)]) kv'.1 = false := by
+      intro kv' hkv'
+      apply hasKey_append_single _ _ _ _ (hdis kv' (List.mem_cons_of_mem _ hkv'))
+      have := hasKey_false hnd.1 kv' hkv'
+      simpa [beq_eq_false_iff_ne, eq_comm] using this
+    have ih' := ih (acc ++ [(k, vs)]) (fun x hx => hwf x (List.mem_cons_of_mem _ hx)) hnd.2 hr
+    cases vs with
+    | nil =>
+      simp only [formatItems, parseItems, validItem_flag k hk, splitEq_flag k hk, setAttr_flag_new acc k hacc]
+      simp only [Bool.not_true, Bool.false_eq_true, ↓reduceIte, Except.bind]
+      rw [ih']; simp
+    | cons v vs' =>
+      have hv := hvs v List.mem_cons_self
+      simp only [formatItems, List.map_cons, List.cons_append, parseItems, validItem_kv k v hk hv,
+        splitEq_kv k v hk hv, setAttr_val_new acc k v hacc]
+      simp only [Bool.not_true, Bool.false_eq_true, ↓reduceIte, Except.bind]
+      rw [parseItems_values k hk vs' (fun x hx => hvs x (List.mem_cons_of_mem _ hx)) _ acc hacc [v] (by simp)]
+      simpa using ih'
+
+theorem mem_formatItems {as : Attrs} {x : Str} (h : x ∈ formatItems as) :
+    ∃ kv ∈ as, (kv.2 = [] ∧ x = kv.1) ∨ (∃ v ∈ kv.2, x = kv.1 ++ '=' :: v) := by
+  induction as with
+  | nil => simp [formatItems] at h
+  | cons kv r ih =>
+    obtain ⟨k, vs⟩ := kv
+    cases vs with
+    | nil =>
+      simp only [formatItems, List.mem_cons] at h
+      rcases h with h | h
+      · exact ⟨(k, []), List.mem_cons_self, Or.inl ⟨rfl, h⟩⟩
+      · obtain ⟨kv, hkv, hx⟩ := ih h
+        exact ⟨kv, List.mem_cons_of_mem _ hkv, hx⟩
+    | cons v vs' =>
+      simp only [formatItems, List.mem_append, List.mem_map] at h
+      rcases h with ⟨w, hw, rfl⟩ | h
+      · exact ⟨(k, v :: vs'), List.mem_cons_self, Or.inr ⟨w, hw, rfl⟩⟩
+      · obtain ⟨kv, hkv, hx⟩ := ih h
+        exact ⟨kv, List.mem_cons_of_mem _ hkv, hx⟩
+
+theorem attrsWF_spec {as : Attrs} (h : attrsWF as = true) :
+    nodupKeys as = true ∧ ∀ kv ∈ as, keyWF kv.1 = true ∧ ∀ v ∈ kv.2, valWF v = true := by
+  unfold attrsWF at h
+  simp only [Bool.and_eq_true, List.all_eq_true] at h
+  exact ⟨h.1, fun kv hkv => ⟨(h.2 kv hkv).1, (h.2 kv hkv).2⟩⟩
+
+theorem item_props {as : Attrs} (h : attrsWF as = true) {x : Str} (hx : x ∈ formatItems as) :
+    strip x = x ∧ x ≠ [] ∧ ∀ c ∈ x, c ≠ ',' := by
+  obtain ⟨_, hwf⟩ := attrsWF_spec h
+  obtain ⟨kv, hkv, hc⟩ := mem_formatItems hx
+  have hk := (hwf kv hkv).1
+  obtain ⟨hne, hl⟩ := keyWF_spec hk
+  rcases hc with ⟨_, rfl⟩ | ⟨v, hv, rfl⟩
+  · exact ⟨strip_flag _ hk, hne, fun c hc => letter_ne_comma (hl c hc)⟩
+  · have hvw := (hwf kv hkv).2 v hv
+    refine ⟨strip_kv _ v hk hvw, by simp, ?_⟩
+    intro c hc
+    simp only [List.mem_append, List.mem_cons] at hc
+    rcases hc with hc | rfl | hc
+    · exact letter_ne_comma (hl c hc)
+    · decide
+    · exact ((valWF_spec hvw).2.2 c hc).1
+
+theorem map_strip_spaced (items : List Str) (h : ∀ x ∈ items, strip x = x) :
+    (spaced items).map strip = items := by
+  cases items with
+  | nil => rfl
+  | cons x r =>
+    simp only [spaced, List.map_cons, List.map_map, h x List.mem_cons_self, List.cons.injEq, true_and]
+    have : ∀ y ∈ r, (strip ∘ fun s => ' ' :: s) y = y := by
+      intro y hy
+      simp [strip_space_cons, h y (List.mem_cons_of_mem _ hy)]
+    calc r.map (strip ∘ fun s => ' ' :: s) = r.map id := List.map_congr_left this
+      _ = r := by simp
+
 end HedVerif.SchemaIO
+
+namespace HedVerif.C05
+open HedVerif.SchemaIO
+
+/-- **Attribute strings round-trip.**  For every attribute dictionary whose names are `[A-Za-z]+`, pairwise
+distinct, and whose values are non-empty, trimmed and free of `,` `=` and newline, the reader
+(`parse_attribute_string`) applied to what the writer (`_format_tag_attributes`) produces gives the dictionary
+back: same names in the same order, every value list (multi-valued attributes included) intact. -/
+theorem attr_roundtrip (as : Attrs) (h : attrsWF as = true) : parseAttr (formatAttr as) = .ok as := by
+  unfold parseAttr formatAttr
+  cases has : as with
+  | nil => simp [formatItems, joinWith]
+  | cons kv r =>
+    rw [← has]
+    have hitems : formatItems as ≠ [] := by
+      subst has
+      obtain ⟨k, vs⟩ := kv
+      cases vs <;> simp [formatItems]
+    obtain ⟨x, xs, hx⟩ := List.exists_cons_of_ne_nil hitems
+    have hxne : x ≠ [] := (item_props h (x := x) (by rw [hx]; exact List.mem_cons_self)).2.1
+    have hjoin : (joinWith [',', ' '] (formatItems as)).isEmpty = false := by
+      rw [hx]; simpa using joinWith_ne_nil _ x xs hxne
+    rw [hjoin]
+    simp only [Bool.false_eq_true, ↓reduceIte]
+    rw [splitOn_join _ hitems (fun y hy => (item_props h hy).2.2),
+      map_strip_spaced _ (fun y hy => (item_props h hy).1)]
+    obtain ⟨hnd, hwf⟩ := attrsWF_spec h
+    simpa using parseItems_format as [] hwf hnd (by intro kv _; rfl)
+
+/-- multi-valued attributes (`suggestedTag=a, suggestedTag=b`) survive with all their values, in order -/
+theorem attr_multivalue_survives (as : Attrs) (h : attrsWF as = true) (k : Str) (vs : List Str)
+    (hk : (k, vs) ∈ as) : ∃ bs, parseAttr (formatAttr as) = .ok bs ∧ (k, vs) ∈ bs :=
+  ⟨as, attr_roundtrip as h, hk⟩
+
+example : attrsWF [(['a'], []), (['b'], [['c'], ['d', ' ', 'e']])] = true := by decide
+example : formatAttr [(['a'], []), (['b'], [['c'], ['d']])] = "a, b=c, b=d".toList := by decide
+
+end HedVerif.C05
